@@ -125,14 +125,19 @@ pub(crate) fn read_escaped_string(
                             ));
                         }
 
-                        let mut buf = [0u8; 4];
+                        if let Some(character) = char::from_u32(number) {
+                            let mut buf = [0u8; 4];
 
-                        value.extend(
-                            char::from_u32(number)
-                                .expect("unable to convert u32 to char")
-                                .encode_utf8(&mut buf)
-                                .as_bytes(),
-                        );
+                            value.extend(character.encode_utf8(&mut buf).as_bytes());
+                        } else {
+                            // surrogate code points (U+D800 to U+DFFF) are not valid chars,
+                            // but Luau encodes them like any other three-byte sequence
+                            value.extend([
+                                0xE0 | (number >> 12) as u8,
+                                0x80 | ((number >> 6) & 0x3F) as u8,
+                                0x80 | (number & 0x3F) as u8,
+                            ]);
+                        }
                     }
                     'z' => {
                         while chars
